@@ -1185,6 +1185,11 @@ where
 
 	// Step 5: Cancel any transactions with an expired TTL
 	for tx in txs {
+		// only a transaction that was never confirmed runs out of time: not one that step 2
+		// has just confirmed, nor one that was confirmed and then reorganised away
+		if tx.confirmed || tx.tx_type == TxLogEntryType::TxReverted {
+			continue;
+		}
 		if let Some(e) = tx.ttl_cutoff_height {
 			if tip.0 >= e {
 				wallet_lock!(wallet_inst, w);
